@@ -115,7 +115,7 @@ def scenario(draw):
     for _ in range(draw(st.integers(1, 3))):
         script = []
         for _ in range(draw(st.integers(1, 6))):
-            kind = draw(st.sampled_from(['activate', 'activate', 'activate', 'deactivate', 'deactivate', 'deactivate', 'idn', 'ping', 'ping', 'help']))
+            kind = draw(st.sampled_from(['activate', 'activate', 'activate', 'deactivate', 'deactivate', 'deactivate', 'idn', 'ping', 'ping', 'help', 'describe']))
             if kind in ('activate', 'deactivate'):
                 script.append([kind, draw(st.sampled_from(scopes)), draw(st.sampled_from(DELAYS))])
             else:
@@ -171,7 +171,9 @@ def run_scenario(case, preempt=None):
                 'a': Parameter('a', IntRange(), default=0), 'b': Parameter('b', IntRange(), default=0),
                 'hid': Parameter('hidden', IntRange(), default=0, export=False), 'read_a': read_a, 'read_b': read_b})
         kit = Kit({'m0': {'cls': mk('m0'), 'description': 'm0'}, 'm1': {'cls': mk('m1'), 'description': 'm1'},
-                   'm0x': {'cls': mk('m0x'), 'description': 'm0x'}})
+                   'm0x': {'cls': mk('m0x'), 'description': 'm0x'}},
+                  # (a description making the reply to 'describe' a line of more than 8 kB, if asked for)
+                  description='generated node' + ' with a long description' * (400 if case.get('long_description') else 0))
         for mname, mobj in kit.modules.items():
             for pname in ('a', 'b', 'hid', 'value', 'status', 'pollinterval'):
                 def cb(*args, mname=mname, pname=pname):
@@ -189,7 +191,7 @@ def run_scenario(case, preempt=None):
                     kind, scope = item[0], item[1]
                     if len(item) > 2 and item[2]:
                         dsched.v_sleep(item[2])
-                    line = {'activate': 'activate', 'deactivate': 'deactivate', 'idn': '*IDN?', 'ping': 'ping x', 'help': 'help'}[kind]
+                    line = {'activate': 'activate', 'deactivate': 'deactivate', 'idn': '*IDN?', 'ping': 'ping x', 'help': 'help', 'describe': 'describe'}[kind]
                     if scope and kind in ('activate', 'deactivate'):
                         line += ' ' + scope
                     sock.push(line.encode() + b'\n')
@@ -389,7 +391,8 @@ def check(ctx, case, preempt=None):
                         ended[k] = (step, 'ident-reply')
                 subs.clear()
                 since.clear()
-            elif action.startswith('error_') or kind == 'ping' or (kind == 'help' and action == 'helping'):
+            elif action.startswith('error_') or kind == 'ping' or (kind == 'help' and action == 'helping') or \
+                    (kind == 'describe' and action == 'describing'):
                 pass
             else:
                 ctx.finding('unexpected-reply', sub, f'conn {ci}: request {kind} {scope} -> {action} {spec}')
@@ -493,7 +496,7 @@ def valid_case(case):
     try:
         for script in case['conns']:
             for item in script:
-                if item[0] not in ('activate', 'deactivate', 'idn', 'ping', 'help') or item[1] not in SCOPES:
+                if item[0] not in ('activate', 'deactivate', 'idn', 'ping', 'help', 'describe') or item[1] not in SCOPES:
                     return False
         for ops in case['drivers']:
             for item in ops:
